@@ -10,7 +10,8 @@
  *      'Q' write it with its current value (no change)   'N' NMT start   'S' stop   'P' pre-operational
  *      'E' SDO write event time := VALS[s]   'I' SDO write inhibit time := VALS[s]*10
  *      'V' invalidate COB-ID (SDO)   'U' validate COB-ID (SDO)   'Y' SYNC frame
- *      'K' SDO write transmission type := TYPE2 (while invalid)                               */
+ *      'K' SDO write transmission type := TYPE2 (while invalid)   'M' remap to MAP2 (while invalid)
+ *      'o' write the first object of MAP2 (changed value)                               */
 #define OD_SYNC
 #define OD_TPDO 1
 #include "od.h"
@@ -34,7 +35,14 @@
 #define VALS {0}
 #endif
 
-static const uint32_t map[] = MAP;
+static const uint32_t map0[] = MAP;
+#ifndef MAP2
+#define MAP2 {0x21050020}
+#define MAP2N 1
+#endif
+static const uint32_t map2[] = MAP2;
+static const uint32_t *map = map0;        /* mapping in effect (model) */
+static uint32_t mapn = MAPN;
 static const uint32_t vals[] = VALS;
 static uint32_t now;
 /* model */
@@ -57,7 +65,7 @@ static void check_frame(const CO_IF_FRM *f)
 {
     uint32_t k, pos = 0;
     CHECK(f->Identifier == 0x180 + OD_NODEID, "TPDO identifier");
-    for (k = 0; k < MAPN; k++) {
+    for (k = 0; k < mapn; k++) {
         uint32_t n = (map[k] & 0xFF) >> 3, j;
         uint32_t v = obj_val((uint16_t)(map[k] >> 16));
         for (j = 0; j < n; j++) { CHECK(f->Data[(pos + j) & 7] == (uint8_t)(v >> (8 * j)), "TPDO carries the mapped values in mapping order, little-endian"); }
@@ -135,14 +143,27 @@ void harness(void)
                 if (m_op && m_valid) { if (m_inh_on) { m_pend = 1; } else { m_transmit(); } }
             }
         } else if (o == 'G') { COTPdoTrigPdo(node.TPdo, 0); m_trigger();
-        } else if ((o == 'O') || (o == 'Q')) {
-            uint16_t idx = (uint16_t)(map[0] >> 16);
+        } else if (o == 'M') {
+            /* remap while invalid: count := 0, entry 1 := MAP2[0] .., count := MAP2N (write rules themselves are C14's) */
+            CHECK(!m_valid, "H:mapping is rewritten only while the PDO is invalid");
+            sdo_wr(0x1A00, 0, 1, 0);
+            for (k = 0; k < MAP2N; k++) { env_tx_n = 0; sdo_wr(0x1A00, (uint8_t)(1 + k), 4, map2[k]); CHECK(env_tx_n == 1 && env_tx[0].Data[0] == 0x60, "mapping entry accepted"); }
+            env_tx_n = 0; sdo_wr(0x1A00, 0, 1, MAP2N); sdo_rsp = 1;
+            CHECK(env_tx_n == 1 && env_tx[0].Data[0] == 0x60, "mapping count accepted");
+            map = map2; mapn = MAP2N;
+        } else if ((o == 'O') || (o == 'Q') || (o == 'o')) {
+            /* 'O'/'Q': first object of the ORIGINAL mapping, 'o': first object of the second mapping */
+            uint16_t idx = (uint16_t)(((o == 'o') ? map2[0] : map0[0]) >> 16);
+            uint8_t  mapped = 0;
             uint32_t old = obj_val(idx);
             uint32_t nv  = (o == 'Q') ? old : (old ^ (1u + (vals[s] & 0x7Fu)));
             if      (idx == 0x2103) { (void)CODictWrByte(&node.Dict, CO_DEV(idx, 0), (uint8_t)nv); }
             else if (idx == 0x2104) { (void)CODictWrWord(&node.Dict, CO_DEV(idx, 0), (uint16_t)nv); }
+            else if (idx == 0x2100) { (void)CODictWrByte(&node.Dict, CO_DEV(idx, 0), (uint8_t)nv); }
+            else if (idx == 0x2101) { (void)CODictWrWord(&node.Dict, CO_DEV(idx, 0), (uint16_t)nv); }
             else                    { (void)CODictWrLong(&node.Dict, CO_DEV(idx, 0), nv); }
-            if (o == 'O') { m_trigger(); }
+            for (k = 0; k < mapn; k++) { if ((uint16_t)(map[k] >> 16) == idx) { mapped = 1; } }
+            if ((o != 'Q') && mapped && (idx >= 0x2103)) { m_trigger(); }      /* only asynchronous (2103h..2105h) mapped objects trigger */
         } else if (o == 'N') { uint8_t was = m_op; nmt(1); m_op = 1; if (!was) { m_activate(); }
         } else if (o == 'S') { nmt(2);   m_op = 0;
         } else if (o == 'P') { nmt(128); m_op = 0;
